@@ -16,6 +16,7 @@ from ..nodes import DESER_MOD
 from ..util import dotted, norm, short, walk_no_nested
 from ..visitors import totality
 from .common_children import children_rule
+from .common_object import object_protocol_rule
 from .common_counter import check_counters, counter_mutants
 
 VISITOR = "apischema.deserialization.DeserializationMethodVisitor"
@@ -243,6 +244,10 @@ def check(ctx):
     ctx.rule("C01.R7", "every child method held by a node is applied to the matching part of the datum and its result used", floor=50)
     children_rule(ctx, "C01.R7", "deser")
 
+    # ---------------- R8
+    ctx.rule("C01.R8", "object nodes: child applied / MISSING / UNEXPECTED / TypedDict copy happen under exactly the documented conditions (truth tables of the reach conditions)", floor=7)
+    object_protocol_rule(ctx, "C01.R8", ["applied", "missing", "unexpected", "copy"])
+
 
 def mutants(mb):
     M = "apischema/deserialization/methods.py"
@@ -276,5 +281,18 @@ def mutants(mb):
     mb.add_text("additional-unconverted", M, "                    ] = self.additional_field.method.deserialize(additional)", "                    ] = additional", "C01.R7", "ObjectMethod.additional_field")
     mb.add_text("conversion-result-unused", M, "        value = self.method.deserialize(data)\n", "        value = data\n", "C01.R7", "ConversionWithValueErrorMethod")
     mb.add_text("neg-child-local-alias", M, "                values[i] = self.value_method.deserialize(elt)", "                vm = self.value_method\n                values[i] = vm.deserialize(elt)", negative=True)
+    mb.add_text("missing-negated", M, "            elif field.required:\n                field_errors = set_child_error(\n                    field_errors, field.alias, ValidationError(self.missing)\n                )\n            elif field.required_by", "            elif not field.required:\n                field_errors = set_child_error(\n                    field_errors, field.alias, ValidationError(self.missing)\n                )\n            elif field.required_by", "C01.R8", "ObjectMethod:missing")
+    mb.add_text("simple-missing-dropped", M, "            elif field.required:\n                field_errors = set_child_error(\n                    field_errors, field.alias, ValidationError(self.missing)\n                )\n        has_discriminator = False", "        has_discriminator = False", "C01.R8", "SimpleObjectMethod:missing")
+    mb.add_text("required-by-polarity", M, "            elif field.required_by is not None and not field.required_by.isdisjoint(", "            elif field.required_by is not None and field.required_by.isdisjoint(", "C01.R8", "ObjectMethod:missing")
+    mb.add_text("scan-guard-flipped", M, "        elif len(data) != fields_count:\n", "        elif len(data) == fields_count:\n", "C01.R8", "ObjectMethod:unexpected")
+    mb.add_text("addprops-polarity", M, "        elif len(data) != fields_count:\n            if not self.additional_properties:", "        elif len(data) != fields_count:\n            if self.additional_properties:", "C01.R8", "ObjectMethod:")
+    mb.add_text("discriminator-polarity", M, "                for key in data.keys() - self.all_aliases:\n                    if key != discriminator:", "                for key in data.keys() - self.all_aliases:\n                    if key == discriminator:", "C01.R8", "ObjectMethod:unexpected")
+    mb.add_text("simple-typed-polarity", M, "        if len(data) != fields_count and not self.typed_dict:", "        if len(data) != fields_count and self.typed_dict:", "C01.R8", "SimpleObjectMethod:unexpected")
+    mb.add_text("simple-guard-or", M, "        if len(data) != fields_count and not self.typed_dict:", "        if len(data) != fields_count or not self.typed_dict:", "C01.R8", "SimpleObjectMethod:unexpected")
+    mb.add_text("typed-copy-polarity", M, "            elif self.typed_dict:\n                for key in data.keys() - self.all_aliases:", "            elif not self.typed_dict:\n                for key in data.keys() - self.all_aliases:", "C01.R8", "ObjectMethod:copy")
+    mb.add_text("remain-all-keys", M, "                for key in data.keys() - self.all_aliases:\n                    if key != discriminator:", "                for key in data.keys():\n                    if key != discriminator:", "C01.R8", "ObjectMethod:unexpected:keys")
+    mb.add_text("applied-when-absent", M, "            if field.alias in data:\n                fields_count += 1\n                try:\n                    values[field.name]", "            if field.alias not in data:\n                fields_count += 1\n                try:\n                    values[field.name]", "C01.R8", "ObjectMethod:")
+    mb.add_text("neg-guard-clause-form", M, "                    for key in remain:\n                        if key != discriminator:\n                            field_errors = set_child_error(\n                                field_errors, key, ValidationError(self.unexpected)\n                            )", "                    for key in remain:\n                        if key == discriminator:\n                            continue\n                        field_errors = set_child_error(\n                            field_errors, key, ValidationError(self.unexpected)\n                        )", negative=True)
+    mb.add_text("neg-else-branch-form", M, "        elif len(data) != fields_count:\n            if not self.additional_properties:", "        elif not (len(data) == fields_count):\n            if not self.additional_properties:", negative=True)
     mb.add_text("neg-operand-order", M, "        return data >= self.minimum", "        return self.minimum <= data", negative=True)
     mb.add_text("neg-guard-form", M, "        if not isinstance(data, bool):\n            raise bad_type(data, bool)\n        return data", "        if isinstance(data, bool):\n            return data\n        raise bad_type(data, bool)", negative=True)
